@@ -1,172 +1,427 @@
 """C15: degenerate multiplets are never split.
 
 spec  : Bands.tla (declarative), MC_BandsBorders (every input = one state), MC_BandsWindow (select_window_degen as its
-        two scanning loops, checked against the declarative meaning by TLC)
-bind  : every TLC state is replayed on get_borders / find_degen / get_bands_in_range / get_bands_below_range /
-        Data_K.get_bands_in_range_groups / select_window_degen / Tabulator; seeded random calls of the same functions
-        (longer arrays, larger values) are recorded and validated by TLC against BandsRec.tla
+        two scanning loops, checked against the declarative meaning by TLC; empty / inverted windows included)
+bind  : spec -> code: every TLC state is replayed on get_borders, Data_K.get_bands_in_range_groups, get_bands_in_range,
+        the Tabulator (two k-points, band subsets, Kramers) and select_window_degen; the frozen / outer window wiring of
+        wannierise is observed through a recording wrapper; code -> spec: seeded random calls (longer arrays, negative
+        energies, odd thresholds, integer arrays) are recorded and validated by TLC against BandsRec.tla
 """
+import copy
 import random
 import numpy as np
 
 from .. import tlc, ftable
 from ..common import Report, MachineryError, seed, quiet
+from ._c1314_util import (lib_call, run_parts, PrivateGone, skipped_private, DuckDataKBase, enumerate_states, run_tlc,
+                          validate_records, candidate_finding, Guard)
 
 PROPS = {
     "C15": dict(level="model_checking",
-                technique="TLC exhaustive on Bands.tla (loop-level transcription of select_window_degen vs declarative multiplet semantics; all sorted arrays) + replay of every TLC state on the real functions + TLC validation of recorded calls",
-                text="TLC enumerates every sorted integer energy array (<=6 bands), threshold, Kramers flag and window and checks the block/"
-                     "window properties on the specification; each enumerated input is executed on the real get_borders, find_degen, "
-                     "get_bands_in_range(_groups), get_bands_below_range, select_window_degen and Tabulator and compared exactly; random "
-                     "larger inputs are recorded from the real functions and every clause of BandsRec is evaluated on them by TLC.",
-                note="energies are integers times 1/8 (exact in binary floating point); Kramers mode is exercised on paired input only (DESIGN.md 7.2)",
+                technique="TLC exhaustive on Bands.tla (loop-level transcription of select_window_degen vs declarative multiplet semantics; all "
+                          "sorted arrays) + replay of every TLC state on the real functions + TLC validation of recorded calls",
+                text="TLC enumerates every sorted integer energy array (quick: <=6 bands for the groups, <=5 for the windows; thorough 7 / 6), "
+                     "threshold, Kramers flag and window (also the empty default window and an inverted one) and checks the block / window "
+                     "properties on the specification. Every enumerated grouping input is executed on get_borders and Data_K."
+                     "get_bands_in_range_groups (groups compared as sets), get_bands_in_range (whole groups, all groups strictly inside the "
+                     "range, none strictly outside: the open/closed ends of the range are not demanded) and, once per (array, threshold, "
+                     "Kramers), on the real Tabulator with a synthetic formula (two k-points, a seeded subset of bands) judged against the "
+                     "block averages of the specification's groups; every finished window state on select_window_degen (both return modes, "
+                     "the empty window also with the default arguments). wannierise is run on a stub up to its two window selections and "
+                     "the recorded masks are validated by TLC (frozen: exclude, outer: include). Random larger inputs (<=16 bands, negative "
+                     "energies, thresholds in half units, integer arrays) are recorded from the real functions and every clause of BandsRec "
+                     "is evaluated on them by TLC.",
+                note="energies are integers times 1/8 (replays) or 1/16 (records), exact in binary floating point. Kramers mode is exercised on "
+                     "paired input with an even number of bands only (DESIGN.md 7.2); with an odd number of bands get_borders(degen_Kramers=True) "
+                     "leaves the last band in no group: reported as CANDIDATE-FINDING get_borders:kramers:odd_number_of_bands (KNOWN-FINDING once "
+                     "registered), not a VIOLATION. find_degen (used for shells of b-vectors only) and get_bands_below_range (strictness at a tie) "
+                     "are compared for information only (parts find_degen_info / below_range_info). Sub-checks that need private names which "
+                     "have disappeared are skipped and listed in the part skipped_private.",
                 ref="DESIGN.md 3.5"),
 }
 
 UNIT = 0.125
+UNIT_REC = 0.0625
 
 
 def groups_of(code_groups):
-    return tuple((int(a), int(b)) for a, b in code_groups)
+    return tuple(sorted((int(a), int(b)) for a, b in code_groups))
 
 
-def call_borders(E, th, kr):
-    from wannierberri.grid.tetrahedron import get_borders
-    return groups_of(get_borders(np.array(E, dtype=float) * UNIT, th * UNIT, degen_Kramers=kr))
+def private(modname, name):
+    """guarded adapter for helper functions that a refactoring may rename"""
+    import importlib
+    try:
+        return getattr(importlib.import_module(modname), name)
+    except (ImportError, AttributeError) as ex:
+        raise PrivateGone(f"{modname}.{name}: {ex}") from None
 
 
-def call_window(E, th, lo, hi, incl):
+def call_borders(E, th, kr, unit=UNIT):
+    get_borders = private("wannierberri.grid.tetrahedron", "get_borders")
+    return groups_of(get_borders(np.array(E, dtype=float) * unit, th * unit, degen_Kramers=kr))
+
+
+def call_window(E, th, lo, hi, incl, unit=UNIT, as_int=False, defaults=False):
+    """-> (indices, indices of the mask); as_int: integer arrays and integer arguments; defaults: no window arguments at all"""
     from wannierberri.utility import select_window_degen
-    r = select_window_degen(np.array(E, dtype=float) * UNIT, thresh=th * UNIT, win_min=lo * UNIT, win_max=hi * UNIT,
-                            include_degen=incl, return_indices=True)
-    m = select_window_degen(np.array(E, dtype=float) * UNIT, thresh=th * UNIT, win_min=lo * UNIT, win_max=hi * UNIT,
-                            include_degen=incl, return_indices=False)
+    arr = np.array(E, dtype=int) if as_int else np.array(E, dtype=float) * unit
+    kw = dict(thresh=th if as_int else th * unit, include_degen=incl)
+    if not defaults:
+        kw.update(win_min=lo if as_int else lo * unit, win_max=hi if as_int else hi * unit)
+    r = select_window_degen(arr.copy(), return_indices=True, **kw)
+    m = select_window_degen(arr.copy(), return_indices=False, **kw)
     return sorted(int(x) for x in r), sorted(int(x) for x in np.where(m)[0])
 
 
-class DuckDataK:
-    def __init__(self, Ek):
-        self.E_K = np.array(Ek, dtype=float) * UNIT
+class DuckDataK(DuckDataKBase):
+    def __init__(self, Ek, unit=UNIT):
+        self.E_K = np.array(Ek, dtype=float) * unit
         self.nk = self.E_K.shape[0]
         self.num_wann = self.E_K.shape[1]
 
-    def get_bands_in_range_groups_ik(self, *a, **kw):
-        from wannierberri.data_K.data_K import Data_K
-        return Data_K.get_bands_in_range_groups_ik(self, *a, **kw)
 
-    def get_bands_in_range_groups(self, *a, **kw):
-        from wannierberri.data_K.data_K import Data_K
-        return Data_K.get_bands_in_range_groups(self, *a, **kw)
+def call_datak_groups(Ek, th, kr, emin, emax, unit=UNIT):
+    """Data_K.get_bands_in_range_groups at k-point 0 -> sorted groups (keys of the returned mapping)"""
+    d = DuckDataK([Ek], unit)
+    res = d.get_bands_in_range_groups(emin, emax, degen_thresh=th * unit, degen_Kramers=kr)
+    return groups_of(res[0].keys())
 
 
 class BandFormula:
     """formula whose trace over a set of bands is the sum of integer band values"""
     ndim = 0
-    transformTR = None
-    transformInv = None
 
     def __init__(self, data_K, vals=None):
+        from wannierberri.symmetry.point_symmetry import transform_ident
         self.vals = vals
+        self.transformTR = transform_ident
+        self.transformInv = transform_ident
 
     def trace(self, ik, inn, out):
         return float(sum(self.vals[ik][b] for b in inn))
 
 
-def call_tabulator(Ek, vals, th, kr):
+def call_tabulator(Eks, vals, th, kr, ibands=None, unit=UNIT):
     from wannierberri.calculators.tabulate import Tabulator
-    tab = Tabulator(BandFormula, kwargs_formula=dict(vals=vals), degen_thresh=th * UNIT, degen_Kramers=kr)
-    res = tab(DuckDataK(Ek))
-    return res.data
+    tab = Tabulator(BandFormula, kwargs_formula=dict(vals=vals), degen_thresh=th * unit, degen_Kramers=kr,
+                    **({} if ibands is None else dict(ibands=list(ibands))))
+    with quiet():
+        res = tab(DuckDataK(Eks, unit))
+    return np.array(res.data, dtype=float)
 
 
-def check(pid, tier):
-    rep = Report(pid, tier, "model_checking")
-    thorough = tier == "thorough"
-    rng = random.Random(seed() * 7919 + 15)
-    from wannierberri.utility import find_degen
-    from wannierberri.grid.tetrahedron import get_bands_in_range, get_bands_below_range
-    rep.rule("TLC enumerates all sorted integer energy arrays within (NB, EMAX, thresholds, windows); a case = one TLC state replayed "
-             "on the real functions (exact comparison), plus seeded random recorded calls validated by TLC; distinct by input tuple")
-    rep.assume("energies/thresholds/windows are integer multiples of 1/8, so float comparisons in the code are exact")
+def py_borders(E, th, kr):
+    """Bands.Borders in Python (only for choosing admissible random inputs and expected block averages of records; the
+    records themselves are judged by TLC)"""
+    b = [0] + [i for i in range(1, len(E)) if E[i] - E[i - 1] > th] + [len(E)]
+    if kr:
+        b = [i for i in b if i % 2 == 0]
+    return [(a, c) for a, c in zip(b, b[1:])]
 
-    # ---------------- spec: borders
+
+def inrange_problem(E, groups, emin, emax, got):
+    """InRangeAdmissible of Bands.tla -> None or a description"""
+    gs = set(groups)
+    if len(set(got)) != len(got):
+        return "a group is listed twice"
+    for g in got:
+        if g not in gs:
+            return f"{g} is not a whole group of the partition"
+        if E[g[1] - 1] < emin or E[g[0]] > emax:
+            return f"{g} lies outside the range"
+    for g in groups:
+        if E[g[1] - 1] > emin and E[g[0]] < emax and g not in got:
+            return f"{g} overlaps the range but is missing"
+    return None
+
+
+LCM = 27720      # lcm(1..12): block averages of integer multiples are integers
+
+
+def tab_expected(E, groups, vals, ibands):
+    out = []
+    for b in ibands:
+        a, c = next((g for g in groups if g[0] <= b < g[1]), (None, None))
+        if a is None:
+            raise MachineryError(f"band {b} is in no group of the specification's partition {groups}")
+        out.append(sum(vals[a:c]) // (c - a))
+    return out
+
+
+# ---------------------------------------------------------------------------------------------------------------------
+def part_borders(rep, thorough, rng):
     nb, emax = (7, 4) if thorough else (6, 3)
     cfg = f"SPECIFICATION Spec\nCONSTANTS\n  NB = {nb}\n  EMAX = {emax}\n  THS = {{0, 1, 2}}\n" + \
-          "".join(f"INVARIANT {i}\n" for i in ("GroupsPartition", "GroupsInternal", "GroupsBoundary", "GroupsKramers", "InRangeSubset")) + \
+          "".join(f"INVARIANT {i}\n" for i in ("GroupsPartition", "GroupsInternal", "GroupsBoundary", "GroupsKramers", "InRangeSubset", "InRangeRelaxed")) + \
           "CHECK_DEADLOCK FALSE\n"
-    st = ftable.enumerate_states("MC_BandsBorders.tla", cfg, "c15_borders")
+    st = enumerate_states("MC_BandsBorders.tla", cfg, "c15_borders")
     ftable.spec_violation(rep, st, "c15_borders")
     rep.add_tlc("c15_borders", st)
-    nst = 0
-    for s in ftable.dump_states(st):
-        nst += 1
-        E, th, kr = list(s["E"]), s["th"], s["kr"]
-        exp = tuple((a, b) for a, b in s["groups"])
-        key = ("borders", tuple(E), th, kr, s["emin"], s["emax"])
-        rep.case(key, nontrivial=len(set(E)) < len(E) or len(E) > 1)
-        got = call_borders(E, th, kr)
-        if got != exp:
-            rep.violation("get_borders:" + ("kramers" if kr else "plain"), dict(E=E, th=th, kramers=kr, expected=exp, got=got, unit=UNIT))
-        if not kr:
-            got2 = groups_of(find_degen(np.array(E, dtype=float) * UNIT, th * UNIT))
-            if got2 != exp:
-                rep.violation("find_degen", dict(E=E, th=th, expected=exp, got=got2))
-        expin = tuple((a, b) for a, b in s["inrange"])
-        gotin = groups_of(get_bands_in_range(s["emin"] * UNIT, s["emax"] * UNIT, np.array(E, dtype=float) * UNIT, degen_thresh=th * UNIT, degen_Kramers=kr))
-        if gotin != expin:
-            rep.violation("get_bands_in_range", dict(E=E, th=th, kramers=kr, emin=s["emin"], emax=s["emax"], expected=expin, got=gotin))
-        d = DuckDataK([E])
-        gk = tuple(sorted(d.get_bands_in_range_groups(s["emin"] * UNIT, s["emax"] * UNIT, degen_thresh=th * UNIT, degen_Kramers=kr)[0].keys()))
-        if gk != tuple(sorted(expin)):
-            rep.violation("Data_K.get_bands_in_range_groups", dict(E=E, th=th, kramers=kr, expected=expin, got=gk))
-        gb = int(get_bands_below_range(s["emin"] * UNIT, np.array(E, dtype=float) * UNIT))
-        if gb != s["below"]:
-            rep.violation("get_bands_below_range", dict(E=E, emin=s["emin"], expected=s["below"], got=gb))
-        if nst <= 2:
-            rep.sample(dict(fn="get_borders", E=E, th=th, kramers=kr, groups=exp))
-    if nst != st["distinct"]:
-        raise MachineryError(f"dump has {nst} states, TLC reported {st['distinct']}")
+    states = sorted(ftable.dump_states(st), key=lambda s: (len(s["E"]), tuple(s["E"]), s["th"], s["kr"], s["emin"], s["emax"]))
+    if len(states) != st["distinct"]:
+        raise MachineryError(f"dump has {len(states)} states, TLC reported {st['distinct']}")
+    info = dict(find_degen_differs=0, find_degen_compared=0, below_differs=0, below_compared=0, in_range_other_ends=0)
+    cls = dict(kramers=0, multi_band_group=0, tab_two_kpoints=0, tab_band_subset=0, tab_kramers=0, tab_subset_inside_block=0, range_edge_tie=0)
+    G = Guard(rep)
+    guarded = G.call
+    done_groups = {}
+    prev = {}
+    nsample = 0
 
-    # ---------------- spec: window loops
+    for s in states:
+        E, th, kr = list(s["E"]), s["th"], s["kr"]
+        exp = tuple(sorted((a, b) for a, b in s["groups"]))
+        key = ("borders", tuple(E), th, kr, s["emin"], s["emax"])
+        rep.case(key, nontrivial=len(E) > 1)
+        gkey = (tuple(E), th, kr)
+        inputs = dict(E=E, th=th, kramers=kr, unit=UNIT)
+        if gkey not in done_groups:
+            done_groups[gkey] = True
+            cls["kramers"] += kr
+            cls["multi_band_group"] += any(b - a > 1 for a, b in exp)
+            ok, got = guarded("get_borders", "get_borders", inputs, call_borders, E, th, kr)
+            if ok and got != exp:
+                rep.violation("get_borders:" + ("kramers" if kr else "plain"), dict(inputs, expected=exp, got=got))
+            # the groups that calculators and tabulators see: Data_K.get_bands_in_range_groups over the whole energy axis
+            ok, got = guarded("datak", "Data_K.get_bands_in_range_groups", inputs, call_datak_groups, E, th, kr, -np.inf, np.inf)
+            if ok and got != exp:
+                rep.violation("Data_K.get_bands_in_range_groups:all", dict(inputs, expected=exp, got=got))
+            if not kr and G.available("find_degen"):
+                # information only: find_degen serves the shells of b-vectors, not the band groups
+                try:
+                    find_degen = private("wannierberri.utility", "find_degen")
+                    info["find_degen_compared"] += 1
+                    info["find_degen_differs"] += groups_of(find_degen(np.array(E, dtype=float) * UNIT, th * UNIT)) != exp
+                except Exception as ex:
+                    G.skip("find_degen", ex)
+            # Tabulator: this array and the previous one of the same length / threshold / Kramers flag as two k-points
+            pk = (len(E), th, kr)
+            Eks = [E] + ([prev[pk][0]] if pk in prev else [])
+            grs = [exp] + ([prev[pk][1]] if pk in prev else [])
+            prev[pk] = (E, exp)
+            vals = [[LCM * rng.randint(-3, 3) for _ in E] for _ in Eks]
+            ibands = None
+            if rng.random() < 0.6:
+                ibands = sorted(rng.sample(range(len(E)), rng.randint(1, len(E))))
+                if rng.random() < 0.3:
+                    rng.shuffle(ibands)
+            ib = list(range(len(E))) if ibands is None else ibands
+            tinputs = dict(E_per_k=Eks, band_values=vals, th=th, kramers=kr, ibands=ibands, unit=UNIT)
+            ok, data = guarded("tabulator", "Tabulator", tinputs, call_tabulator, Eks, vals, th, kr, ibands)
+            if ok:
+                want = [tab_expected(Ek, g, v, ib) for Ek, g, v in zip(Eks, grs, vals)]
+                rep.case(("tab",) + gkey + (tuple(ib), len(Eks)))
+                if data.shape != (len(Eks), len(ib)) or np.any(np.abs(data - np.array(want, dtype=float)) > 1e-6):
+                    rep.violation("Tabulator:" + ("kramers" if kr else "plain") + (":ibands" if ibands is not None else ""),
+                                  dict(tinputs, groups_per_k=grs, expected=want, got=data.tolist()))
+                cls["tab_two_kpoints"] += len(Eks) == 2
+                cls["tab_band_subset"] += ibands is not None
+                cls["tab_kramers"] += kr
+                cls["tab_subset_inside_block"] += any(0 < sum(x in ib for x in range(a, b)) < b - a for a, b in exp)
+                if nsample < 1:
+                    nsample += 1
+                    rep.sample(dict(fn="Tabulator", **tinputs, expected=want))
+        # groups in a range: whole groups, those strictly overlapping present, none strictly outside
+        rinputs = dict(inputs, emin=s["emin"], emax=s["emax"])
+        expin = tuple(sorted((a, b) for a, b in s["inrange"]))
+        cls["range_edge_tie"] += any(E[b - 1] == s["emin"] or E[a] == s["emax"] for a, b in exp)
+        for name, site, fn in (("get_bands_in_range", "get_bands_in_range", call_in_range), ("datak", "Data_K.get_bands_in_range_groups", call_datak_groups)):
+            ok, gotin = guarded(name, site, rinputs, fn, E, th, kr, s["emin"] * UNIT, s["emax"] * UNIT)
+            if ok:
+                why = inrange_problem(E, exp, s["emin"], s["emax"], gotin)
+                if why:
+                    rep.violation(site, dict(rinputs, groups=exp, got=gotin, why=why, closed_interval_answer=expin))
+                elif gotin != expin:
+                    info["in_range_other_ends"] += 1
+        if G.available("get_bands_below_range"):
+            try:
+                below = private("wannierberri.grid.tetrahedron", "get_bands_below_range")
+                info["below_compared"] += 1
+                info["below_differs"] += int(below(s["emin"] * UNIT, np.array(E, dtype=float) * UNIT)) != s["below"]
+            except Exception as ex:
+                G.skip("get_bands_below_range", ex)
+        if len(rep.cov["samples"]) < 2 and len(E) > 2:
+            rep.sample(dict(fn="get_borders", E=E, th=th, kramers=kr, groups=exp))
+    if not (G.available("get_borders") or G.available("datak")):
+        raise MachineryError("neither get_borders nor Data_K.get_bands_in_range_groups can be called: the band groups are not observable")
+    for k, v in cls.items():
+        if v == 0 and (G.available("tabulator") or not k.startswith("tab_")):
+            raise MachineryError(f"vacuous replay class {k}")
+    rep.part("c15_borders_replay", states=len(states), distinct_grouping_inputs=len(done_groups), **cls)
+    rep.part("find_degen_info", compared=info["find_degen_compared"], differs_from_band_groups=info["find_degen_differs"])
+    rep.part("below_range_info", compared=info["below_compared"], differs_from_strictly_below=info["below_differs"],
+             in_range_answers_with_other_end_convention=info["in_range_other_ends"])
+
+
+def call_in_range(E, th, kr, emin, emax, unit=UNIT):
+    f = private("wannierberri.grid.tetrahedron", "get_bands_in_range")
+    return groups_of(f(emin, emax, np.array(E, dtype=float) * unit, degen_thresh=th * unit, degen_Kramers=kr))
+
+
+def part_kramers_odd(rep):
+    """candidate finding (not excluded silently): Kramers mode with an odd number of bands"""
+    E, th = [0, 1, 2], 0
+    try:
+        got = call_borders(E, th, True)
+    except Exception as ex:
+        rep.part("kramers_odd_number_of_bands", not_evaluated=f"{type(ex).__name__}: {str(ex)[:200]}")
+        return
+    covered = sorted(b for a, c in got for b in range(a, c))
+    if covered != list(range(len(E))):
+        candidate_finding(rep, "get_borders:kramers:odd_number_of_bands",
+                          dict(call="wannierberri.grid.tetrahedron.get_borders(np.array([0., 0.125, 0.25]), 0.0, degen_Kramers=True)",
+                               got=[list(g) for g in got], bands_in_no_group=[b for b in range(len(E)) if b not in covered],
+                               statement="the band groups partition the bands at each k",
+                               consequence="calculators with degen_Kramers=True ignore the highest band when num_wann is odd "
+                                           "(CumDOS saturates at num_wann - 1, tabulated values of the last band are missing)"))
+    else:
+        rep.part("kramers_odd_number_of_bands", partition=True)
+
+
+def part_window(rep, thorough, rng):
     nbw, emw = (6, 4) if thorough else (5, 3)
     wcfg = lambda whole: (f"SPECIFICATION Spec\nCONSTANTS\n  NB = {nbw}\n  EMAX = {emw}\n  THS = {{1, 2}}\n  WholeMultiplet = {'TRUE' if whole else 'FALSE'}\n"
-                          "INVARIANT WindowNeverSplits\nINVARIANT WindowMeaning\nINVARIANT WindowMonotone\nCHECK_DEADLOCK FALSE\n")
-    st = ftable.enumerate_states("MC_BandsWindow.tla", wcfg(True), "c15_window")
+                          "INVARIANT WindowNeverSplits\nINVARIANT WindowMeaning\nINVARIANT WindowMonotone\nINVARIANT EmptyWindowEmpty\nCHECK_DEADLOCK FALSE\n")
+    st = enumerate_states("MC_BandsWindow.tla", wcfg(True), "c15_window")
     ftable.spec_violation(rep, st, "c15_window")
     tlc.check_not_vacuous(st, ["Start", "Up", "Down"], "c15_window")
     rep.add_tlc("c15_window", st)
     # sensitivity: the model of the code before the repair must violate the property
-    st0 = tlc.run_tlc("MC_BandsWindow.tla", wcfg(False), "c15_window_v0", timeout=900)
+    st0 = run_tlc("MC_BandsWindow.tla", wcfg(False), "c15_window_v0", timeout=900)
     if not st0.get("violation"):
         raise MachineryError("sensitivity self-test failed: MC_BandsWindow with WholeMultiplet=FALSE should violate WindowNeverSplits")
     rep.part("c15_window_v0", sensitivity_violation=st0["violation"][1])
-    nw = 0
-    for s in ftable.dump_states(st):
-        if s["pc"] != "done":
-            continue
-        nw += 1
+    done = [s for s in ftable.dump_states(st) if s["pc"] == "done"]
+    done.sort(key=lambda s: (len(s["E"]), tuple(s["E"]), s["th"], s["lo"], s["hi"], s["incl"]))
+    cls = dict(empty_default=0, inverted=0, edge_changes_two_or_more_bands=0, include=0, exclude=0)
+    for nw, s in enumerate(done):
         E = list(s["E"])
         exp = sorted(j for j, v in enumerate(s["inside"]) if v)
         args = dict(E=E, th=s["th"], lo=s["lo"], hi=s["hi"], incl=s["incl"])
-        rep.case(("window",) + tuple(sorted((k, tuple(v) if isinstance(v, list) else v) for k, v in args.items())),
-                 nontrivial=len(exp) > 0)
-        got, gotmask = call_window(**args)
-        if got != exp or gotmask != exp:
-            cut_size = "pair" if len(E) < 3 else "multiplet"
-            rep.violation("select_window_degen:" + ("include" if s["incl"] else "exclude"),
-                          dict(args, unit=UNIT, expected=exp, got_indices=got, got_mask=gotmask))
-        if nw <= 2:
+        rep.case(("window",) + tuple(sorted((k, tuple(v) if isinstance(v, list) else v) for k, v in args.items())), nontrivial=len(exp) > 0)
+        variants = [dict()]
+        if s["lo"] > s["hi"]:
+            cls["inverted"] += 1
+            if s["lo"] == emw + 1:
+                variants.append(dict(defaults=True))          # win_min = +inf, win_max = -inf: the documented "nothing frozen"
+                cls["empty_default"] += 1
+        cls["include" if s["incl"] else "exclude"] += 1
+        inside0 = [j for j, e in enumerate(E) if s["lo"] <= e <= s["hi"]]
+        cls["edge_changes_two_or_more_bands"] += len(set(exp) ^ set(inside0)) >= 2
+        for var in variants:
+            ok, res = lib_call(rep, "select_window_degen", dict(args, unit=UNIT, **var), call_window, **args, **var)
+            if not ok:
+                continue
+            got, gotmask = res
+            if got != exp or gotmask != exp:
+                rep.violation("select_window_degen:" + ("include" if s["incl"] else "exclude") + (":default_window" if var else ""),
+                              dict(args, unit=UNIT, expected=exp, got_indices=got, got_mask=gotmask, **var))
+        if nw < 2:
             rep.sample(dict(fn="select_window_degen", **args, inside=exp))
-    if nw == 0:
+    if not done:
         raise MachineryError("no finished window case in the dump")
+    for k, v in cls.items():
+        if v == 0:
+            raise MachineryError(f"vacuous window class {k}")
+    rep.part("c15_window_replay", finished_states=len(done), **cls)
 
-    # ---------------- code -> spec : recorded calls validated by TLC
-    recs = []
+
+# ---------------------------------------------------------------------------------------------------------------------
+class _Stop(Exception):
+    pass
+
+
+def part_wannierise_wiring(rep, rng, recs):
+    """wannierise(wandata, froz_min, froz_max, outer_min, outer_max) selects the frozen bands without and the outer-window
+    bands with the multiplets cut by a window edge.  The function is run on a stub up to its window selections; the calls
+    of select_window_degen made from inside wannierise are recorded (inputs and returned masks) and the masks are judged by
+    TLC (records of kind "window").  Relies on internals (the module-level name select_window_degen of wannierise.py, the
+    keywords win_min / win_max, the attributes irreducible / mmn.NK / eig.data of the data object): skipped when they change."""
+    try:
+        import wannierberri.wannierisation.wannierise as wmod
+        real = wmod.select_window_degen
+        wannierise = wmod.wannierise
+    except (ImportError, AttributeError) as ex:
+        skipped_private(rep, "wannierise_wiring", ex)
+        return
+    NK = 4
+    # arrays (units of 1/8) with multiplets (gap 0 < default thresh 0.01) cut by both windows
+    base = [[0, 0, 1, 2, 2, 2, 3, 5], [0, 1, 1, 1, 2, 4, 4, 5], [-1, 0, 0, 2, 2, 3, 3, 3], [0, 0, 0, 1, 3, 3, 4, 4]]
+    eig = [np.array(b, dtype=float) * UNIT for b in base]
+    froz = (rng.choice([0, 1]), rng.choice([2, 3]))
+    outer = (-1, 4)
+    calls = []
+
+    def recorder(E, *a, **kw):
+        out = real(E, *a, **kw)
+        calls.append((np.array(E, dtype=float), a, dict(kw), np.array(out)))
+        if len(calls) >= 2 * NK:
+            raise _Stop()
+        return out
+
+    class Stub:
+        irreducible = False
+        wannierised = False
+
+        class mmn:
+            pass
+
+        class eig:
+            pass
+
+        def __getattr__(self, name):
+            raise _Stop()        # anything beyond the window selections is outside this sub-check
+    Stub.mmn.NK = NK
+    Stub.eig.data = {ik: e for ik, e in enumerate(eig)}
+    wmod.select_window_degen = recorder
+    try:
+        with quiet():
+            wannierise(Stub(), froz_min=froz[0] * UNIT, froz_max=froz[1] * UNIT, outer_min=outer[0] * UNIT, outer_max=outer[1] * UNIT,
+                       sitesym=False, num_iter=0)
+    except _Stop:
+        pass
+    except Exception as ex:
+        skipped_private(rep, "wannierise_wiring", f"stub run stopped with {type(ex).__name__}: {ex}")
+        return
+    finally:
+        wmod.select_window_degen = real
+    roles = dict(frozen=[], outer=[])
+    for E, a, kw, out in calls:
+        if a or "win_min" not in kw or "win_max" not in kw:
+            skipped_private(rep, "wannierise_wiring", f"select_window_degen is called with other arguments: {a} {sorted(kw)}")
+            return
+        lo, hi = kw["win_min"] / UNIT, kw["win_max"] / UNIT
+        role = "frozen" if (lo, hi) == froz else "outer" if (lo, hi) == outer else None
+        th = kw.get("thresh", 1e-2)
+        if role is None or not (0 < th <= UNIT) or out.dtype != bool:
+            skipped_private(rep, "wannierise_wiring", f"unexpected call window=({lo},{hi}) thresh={th} dtype={out.dtype}")
+            return
+        ik = next((i for i, e in enumerate(eig) if e.shape == E.shape and np.all(e == E)), None)
+        if ik is None:
+            skipped_private(rep, "wannierise_wiring", "select_window_degen was called on other energies than eig.data[ik]")
+            return
+        roles[role].append(ik)
+        # 0 < thresh <= 1/8 on multiples of 1/8: "closer than thresh" <=> equal <=> closer than 1 unit
+        recs.append(dict(fn="window", E=base[ik], th=1, lo=int(lo), hi=int(hi), incl=(role == "outer"), out=[int(x) for x in np.where(out)[0]],
+                         unit=UNIT, origin=f"wannierise:{role}_window:ik{ik}"))
+        rep.case(("wannierise", role, ik, froz))
+    if sorted(roles["frozen"]) != list(range(NK)) or sorted(roles["outer"]) != list(range(NK)):
+        skipped_private(rep, "wannierise_wiring", f"window selections seen: {roles}")
+        del recs[-len(calls):]
+        return
+    rep.part("wannierise_wiring", recorded_calls=len(calls), frozen_window=froz, outer_window=outer)
+
+
+def part_records(rep, thorough, rng, recs):
     nrec = 3000 if thorough else 600
+    U = UNIT_REC
+    stats = dict(borders=0, kramers=0, window=0, window_inverted=0, window_int_array=0, inrange=0, tab=0, tab_ibands=0, negative=0, long=0, odd_threshold=0)
     for _ in range(nrec):
-        n = rng.randint(1, 12)
-        E = sorted(rng.choice([0, 0, 1, 1, 2, 3, 5, 8]) + rng.randint(0, 3) * rng.randint(0, 4) for _ in range(n))
-        th = rng.choice([0, 1, 2, 3])
+        n = rng.choice([rng.randint(1, 12), rng.randint(1, 12), rng.randint(13, 16)])
+        off = rng.choice([0, 0, -7, -20])
+        E = sorted(off + rng.choice([0, 0, 2, 2, 4, 6, 10, 16]) + rng.randint(0, 6) * rng.randint(0, 4) for _ in range(n))
+        th = rng.choice([0, 1, 2, 3, 4, 6])
         r = rng.random()
         if r < 0.3:
             kr = rng.random() < 0.4
@@ -176,50 +431,111 @@ def check(pid, tier):
                 E = [x for p in zip(sorted(half), sorted(half)) for x in p] if rng.random() < 0.5 else E
                 if len(E) % 2 or any(E[2 * k + 1] - E[2 * k] > th for k in range(len(E) // 2)):
                     kr = False
-            recs.append(dict(fn="borders", E=E, th=th, kr=kr, out=[list(g) for g in call_borders(E, th, kr)]))
-        elif r < 0.75:
-            lo = rng.randint(-1, max(E) + 1)
-            hi = rng.randint(lo, max(E) + 1)
-            incl = rng.random() < 0.5
-            thw = rng.choice([1, 2, 3])
-            got, gotmask = call_window(E, thw, lo, hi, incl)
-            if got != gotmask:
-                rep.violation("select_window_degen:mask_vs_indices", dict(E=E, th=thw, lo=lo, hi=hi, incl=incl, got=got, mask=gotmask))
-            recs.append(dict(fn="window", E=E, th=thw, lo=lo, hi=hi, incl=incl, out=got))
-        elif r < 0.85:
-            emin = rng.randint(-1, max(E) + 1)
-            emax = rng.randint(emin, max(E) + 1)
-            out = groups_of(get_bands_in_range(emin * UNIT, emax * UNIT, np.array(E, dtype=float) * UNIT, degen_thresh=th * UNIT))
-            recs.append(dict(fn="inrange", E=E, th=th, kr=False, emin=emin, emax=emax, out=[list(g) for g in out]))
-        else:
-            vals = [27720 * rng.randint(-3, 3) for _ in E]
-            data = call_tabulator([E], [vals], th, False)
-            v = [x for x in data[0]]
-            if any(abs(x - round(x)) > 1e-9 for x in v):
-                rep.violation("Tabulator:nonintegral", dict(E=E, vals=vals, th=th, got=[float(x) for x in v]))
+            inputs = dict(E=E, th=th, kramers=kr, unit=U)
+            try:
+                ok, out = lib_call(rep, "get_borders", inputs, call_borders, E, th, kr, U)
+                src = "get_borders"
+            except PrivateGone:
+                ok, out = lib_call(rep, "Data_K.get_bands_in_range_groups", inputs, call_datak_groups, E, th, kr, -np.inf, np.inf, U)
+                src = "Data_K.get_bands_in_range_groups"
+            if not ok:
                 continue
-            g = call_borders(E, th, False)
-            recs.append(dict(fn="tab", E=E, th=th, groups=[list(x) for x in g], vals=[int(round(x)) for x in v],
-                             tr=[sum(vals[a:b]) for a, b in g]))
-        rep.case(("rec", recs[-1]["fn"], tuple(E), th, len(recs)))
-    stv, bad = ftable.validate_records("BandsRec.tla", ftable.REC_CFG, recs, "c15")
+            recs.append(dict(fn="borders", E=E, th=th, kr=kr, out=[list(g) for g in out], origin=src, unit=U))
+            stats["kramers"] += kr
+        elif r < 0.72:
+            lo = rng.randint(min(E) - 2, max(E) + 2)
+            hi = rng.randint(lo, max(E) + 2) if rng.random() < 0.9 else rng.randint(min(E) - 2, lo)
+            incl = rng.random() < 0.5
+            thw = rng.choice([1, 2, 3, 4, 5])
+            as_int = rng.random() < 0.2
+            args = dict(E=E, th=thw, lo=lo, hi=hi, incl=incl, unit=U, as_int=as_int)
+            ok, res = lib_call(rep, "select_window_degen", args, call_window, **args)
+            if not ok:
+                continue
+            got, gotmask = res
+            if got != gotmask:
+                rep.violation("select_window_degen:mask_vs_indices", dict(args, got=got, mask=gotmask))
+            recs.append(dict(fn="window", E=E, th=thw, lo=lo, hi=hi, incl=incl, out=got, unit=1 if as_int else U, origin="select_window_degen"))
+            stats["window_inverted"] += lo > hi
+            stats["window_int_array"] += as_int
+        elif r < 0.85:
+            emin = rng.randint(min(E) - 1, max(E) + 1)
+            emax = rng.randint(emin, max(E) + 1)
+            inputs = dict(E=E, th=th, kramers=False, emin=emin, emax=emax, unit=U)
+            try:
+                ok, out = lib_call(rep, "get_bands_in_range", inputs, call_in_range, E, th, False, emin * U, emax * U, U)
+                src = "get_bands_in_range"
+            except PrivateGone:
+                ok, out = lib_call(rep, "Data_K.get_bands_in_range_groups", inputs, call_datak_groups, E, th, False, emin * U, emax * U, U)
+                src = "Data_K.get_bands_in_range_groups"
+            if not ok:
+                continue
+            recs.append(dict(fn="inrange", E=E, th=th, kr=False, emin=emin, emax=emax, out=[list(g) for g in out], origin=src, unit=U))
+        else:
+            if len(E) > 12:
+                E = E[:12]                      # block sizes <= 12 keep the averages integral (LCM)
+            vals = [LCM * rng.randint(-3, 3) for _ in E]
+            ibands = sorted(rng.sample(range(len(E)), rng.randint(1, len(E)))) if rng.random() < 0.5 else None
+            ib = list(range(len(E))) if ibands is None else ibands
+            tinputs = dict(E=E, band_values=vals, th=th, kramers=False, ibands=ibands, unit=U)
+            ok, data = lib_call(rep, "Tabulator", tinputs, call_tabulator, [E], [vals], th, False, ibands, U)
+            if not ok:
+                continue
+            v = [float(x) for x in np.ravel(data)]
+            if len(v) != len(ib) or any(abs(x - round(x)) > 1e-6 for x in v):
+                rep.violation("Tabulator:nonintegral", dict(tinputs, got=v, note="band values are multiples of lcm(1..12): block averages are integers"))
+                continue
+            recs.append(dict(fn="tab", E=E, th=th, kr=False, vin=vals, ib=ib, vals=[int(round(x)) for x in v], unit=U, origin="Tabulator"))
+            stats["tab_ibands"] += ibands is not None
+        stats[recs[-1]["fn"]] += 1
+        stats["negative"] += min(E) < 0
+        stats["long"] += len(E) > 12
+        stats["odd_threshold"] += recs[-1]["th"] % 2 == 1
+        rep.case(("rec", recs[-1]["fn"], tuple(E), recs[-1]["th"], len(recs)))
+    for k, v in stats.items():
+        if v == 0:
+            raise MachineryError(f"vacuous record class {k}")
+    stv, bad = validate_records("BandsRec.tla", ftable.REC_CFG, recs, "c15")
     rep.add_tlc("c15_records", stv)
     rep.add_traces(len(recs))
-    for i, clauses in bad.items():
+    rep.part("c15_records", **stats)
+    for i, clauses in sorted(bad.items()):
         r = recs[i]
-        sub = ""
-        if r["fn"] == "window":
-            sub = ":include" if r["incl"] else ":exclude"
-        fnname = {"borders": "get_borders", "window": "select_window_degen", "inrange": "get_bands_in_range", "tab": "Tabulator"}[r["fn"]]
-        rep.violation(f"{fnname}{sub}" if r["fn"] == "window" else f"{fnname}:recorded", dict(record=r, failing_clauses=clauses, unit=UNIT))
-    rep.sample(recs[0])
+        if r["origin"].startswith("wannierise"):
+            key = ":".join(r["origin"].split(":")[:2])
+        elif r["fn"] == "window":
+            key = "select_window_degen:" + ("include" if r["incl"] else "exclude")
+        else:
+            key = r["origin"] + ":recorded"
+        rep.violation(key, dict(record=r, failing_clauses=clauses))
+    rep.sample(next(r for r in recs if r["fn"] == "borders"))
     # binding self-test: a corrupted record must be reported
-    import copy
-    badrec = copy.deepcopy([r for r in recs if r["fn"] == "borders" and len(r["out"]) > 1][:1])
-    if badrec:
-        badrec[0]["out"] = badrec[0]["out"][:-1]
-        _, b2 = ftable.validate_records("BandsRec.tla", ftable.REC_CFG, badrec, "c15_selftest")
-        if 0 not in b2:
-            raise MachineryError("binding self-test failed: corrupted get_borders record accepted")
-        rep.part("binding_selftest", corrupted_record_rejected=b2[0])
-    return rep.finish()
+    cand = [r for r in recs if r["fn"] == "borders" and len(r["out"]) > 1][:1]
+    if not cand:
+        raise MachineryError("no get_borders record with two groups for the binding self-test")
+    badrec = copy.deepcopy(cand)
+    badrec[0]["out"] = badrec[0]["out"][:-1]
+    _, b2 = validate_records("BandsRec.tla", ftable.REC_CFG, badrec, "c15_selftest")
+    if 0 not in b2:
+        raise MachineryError("binding self-test failed: corrupted get_borders record accepted")
+    rep.part("binding_selftest", corrupted_record_rejected=b2[0])
+
+
+def check(pid, tier):
+    rep = Report(pid, tier, "model_checking")
+    thorough = tier == "thorough"
+    rng = random.Random(seed() * 7919 + 15)
+    rep.rule("TLC enumerates all sorted integer energy arrays within (NB, EMAX, thresholds, ranges / windows); a case = one TLC state replayed "
+             "on the real functions (exact comparison of sets of groups / selected bands; Tabulator values exact integers), plus the window "
+             "masks recorded from inside wannierise and seeded random recorded calls validated by TLC; distinct by input tuple")
+    rep.assume("energies/thresholds/windows are integer multiples of 1/8 (records 1/16), so float comparisons in the code are exact")
+    rep.assume("Kramers mode: paired input with an even number of bands (the odd case is reported as a candidate finding)")
+
+    def body():
+        part_borders(rep, thorough, rng)
+        part_kramers_odd(rep)
+        part_window(rep, thorough, rng)
+        recs = []
+        part_wannierise_wiring(rep, rng, recs)
+        part_records(rep, thorough, rng, recs)
+    return run_parts(rep, body)
